@@ -13,9 +13,9 @@ namespace etl {
 /// https://en.cppreference.com/w/cpp/string/byte/strtol
 [[nodiscard]] constexpr auto strtol(char const* str, char const** last, int base) noexcept -> long
 {
-    auto const res = strings::to_integer<long>(str, base);
+    auto const res = strings::to_integer_c<long>(str, base);
     if (last != nullptr) {
-        *last = res.end;
+        *last = str + res.consumed;
     }
     return res.value;
 }
@@ -25,9 +25,9 @@ namespace etl {
 /// https://en.cppreference.com/w/cpp/string/byte/strtol
 [[nodiscard]] constexpr auto strtoll(char const* str, char const** last, int base) noexcept -> long long
 {
-    auto const res = strings::to_integer<long long>(str, base);
+    auto const res = strings::to_integer_c<long long>(str, base);
     if (last != nullptr) {
-        *last = res.end;
+        *last = str + res.consumed;
     }
     return res.value;
 }
